@@ -27,8 +27,17 @@ def pair_doc(rng):
     return rng.choice(shapes).replace("{}", core) + "\n"
 
 
+def nest_doc(rng):
+    """escapes, entities and delimiter pairs inside descriptions / link texts nested two and three deep"""
+    inner = rng.choice(["in\\*ner &amp; x", "a \\_b\\_ &lt;", "*e* \\` &#35;", "~~s~~ \\[", "p &copy; \\!q", "x"])
+    shapes = ["![outer ![{}](a) text](b)", "![o [l ![{}](a)](c) t](b)", "![a ![b ![{}](x)](y)](z)", "[t ![i ![{}](p)](q)](r)",
+              "[*e [{}](/in)*](/out)", "[~~{}~~](/u)", "[_{}_](/u)", "# [{}](/u)", "| [*{}*](/u) |\n|---|", "> ![q ![{}](a)](b)"]
+    return rng.choice(shapes).replace("{}", inner) + "\n"
+
+
 def extra_doc(rng):
-    return pair_doc(rng) if rng.random() < 0.5 else delim_doc(rng)
+    r = rng.random()
+    return pair_doc(rng) if r < 0.4 else nest_doc(rng) if r < 0.6 else delim_doc(rng)
 
 
 def pred(ts, nsrc, env):
@@ -39,7 +48,7 @@ def run(ctx):
     return parserprop.run_generic(
         ctx, "C02", "malformed-token-stream", pred, extra_doc,
         ["producer side (every block / inline rule pushes balanced, correctly levelled segments; delimiter pairs never cross) is not yet a theorem: it is carried by the pipeline correspondence and by the predicate evaluated on the implementation in this run (partial)"],
-        "correspondence and predicate on: seed corpus, mutations, container x leaf grammar, malformed stream, and delimiter pairs of every run length 1-5 inside and around links / images / emphasis / cells, delimiter soups (runs of * _ ~ brackets backticks links images in paragraph/heading/list/quote/table/link/image contexts) x standard and random configurations (rule subsets; rules2 all on)")
+        "correspondence and predicate on: seed corpus, mutations, container x leaf grammar, malformed stream, and delimiter pairs of every run length 1-5 inside and around links / images / emphasis / cells, images / links nested two and three deep with escapes, entities and pairs in the innermost description, delimiter soups (runs of * _ ~ brackets backticks links images in paragraph/heading/list/quote/table/link/image contexts) x standard and random configurations (rule subsets; rules2 all on)")
 
 
 def replay(body):
